@@ -107,6 +107,7 @@ pub fn profile_for(id: &str, rng: &mut Rng) -> Profile {
             // with ddl_rich, constraints arrive by CREATE UNIQUE INDEX / ALTER after the data
             p.constraints = !p.ddl_rich || rng.chance(40);
             p.colliding_keys = true;
+            p.reuse_dead_keys = rng.chance(60);
             p.max_sessions = 2;
             p.w_failing = 10;
             p.p_rollback = 40;
